@@ -99,7 +99,66 @@ def check(c):
         got = c.K.class_attr('GraphParser', k)
         c.ob('C14.rejects', f'{GP}:GraphParser.{k} == {v!r}', got == v, '',
              repr(got))
-    soo = c.func(GP, 'GraphParser._set_output_opt')
+    # ---- comments and blank lines are presentation only: what reaches the
+    # line-joining stage is the comment-stripped text, and a line that is
+    # blank *after* stripping is dropped (a comment-only line inside a
+    # continued graph line must not end the continuation)
+    apps = [n for n in c.calls(pg, 'append')
+            if norm(n.func.value) == 'non_blank_lines']
+    c.floor('C14.comments', 'non_blank_lines.append', len(apps), 1)
+    cfgp = c.cfg(pg)
+    for a in apps:
+        ok = len(a.args) == 1 and isinstance(a.args[0], ast.Name)
+        c.ob('C14.comments', c.key(a, pg) + ' appends a named value', ok,
+             c.where(a, pg), '')
+        if not ok:
+            continue
+        v = a.args[0].id
+        loop = c.idx.stmt_of(a)
+        while not isinstance(loop, ast.For):
+            loop = c.idx.parent[id(loop)]
+        line_var = norm(loop.target)
+        strips = [n for n in ast.walk(loop) if isinstance(n, ast.Assign)
+                  and norm(n.targets[0]) == v and isinstance(
+                      n.value, ast.Call) and norm(n.value.func).endswith(
+                      'REC_COMMENT.sub') and len(n.value.args) == 2
+                  and norm(n.value.args[0]) == "''"
+                  and norm(n.value.args[1]) == line_var]
+        c.exactly('C14.comments', f'{v} = REC_COMMENT.sub(\'\', {line_var})',
+                  len(strips), 1)
+        # every other definition of v derives from v itself
+        for d in [n for n in ast.walk(loop) if isinstance(n, ast.Assign)
+                  and norm(n.targets[0]) == v and n not in strips]:
+            c.ob('C14.comments', c.key(d, pg) + ' derives from the stripped '
+                 'line', v in {x.id for x in ast.walk(d.value)
+                               if isinstance(x, ast.Name)}
+                 and line_var not in {x.id for x in ast.walk(d.value)
+                                      if isinstance(x, ast.Name)},
+                 c.where(d, pg), '')
+        skips = [n for n in ast.walk(loop) if isinstance(n, ast.Continue)
+                 and c.holds(n, AnyOf(f'!{v}', f'{v}.isspace()'))]
+        blank = [n for n in skips if c.case_covered(
+            c.idx.parent[id(n)].test, [f'!{v}'], n) and c.case_covered(
+            c.idx.parent[id(n)].test, [f'{v}.isspace()'], n)]
+        c.floor('C14.comments', f'`continue` when {v} is empty or blank',
+                len(blank), 1)
+        for s in strips:
+            for k in blank:
+                c.ob('C14.comments', c.key(k, pg) + ' tests the line after '
+                     'comment stripping', cfgp.dominated_by(
+                         c.idx.parent[id(k)], lambda x, s=s: x is s),
+                     c.where(k, pg), '')
+                c.ob('C14.comments', c.key(a, pg) + ' after the blank-line '
+                     'test', cfgp.dominated_by(
+                         c.idx.stmt_of(a),
+                         lambda x, k=k: x is c.idx.parent[id(k)]),
+                     c.where(a, pg), '')
+    rc = c.K.class_attr_node('GraphParser', 'REC_COMMENT')
+    c.ob('C14.comments', f'{GP}:GraphParser.REC_COMMENT strips from # to the '
+         'end of the line', isinstance(rc, ast.Call) and bool(rc.args)
+         and c.fold(rc.args[0]) == '#.*$', c.where(rc) if rc is not None
+         else '', norm(rc) if rc is not None else 'missing')
+    soo =c.func(GP, 'GraphParser._set_output_opt')
     sraises = _raises(c, soo)
     need_so = {
         'required :expired / :submit-failed':
@@ -210,4 +269,27 @@ VARIANTS = [
      '            if self.__class__.OP_AND_ERR in line:',
      '            if self.__class__.OP_AND_ERR in line * 2:',
      'C14.rejects'),
+    ('blank-test-before-strip', 'cylc/flow/graph_parser.py',
+     '''            modified_line = self.__class__.REC_COMMENT.sub('', line)
+
+            # Ignore empty lines
+            if not modified_line or modified_line.isspace():
+                continue
+''', '''            # Ignore empty lines
+            if not line or line.isspace():
+                continue
+
+            modified_line = self.__class__.REC_COMMENT.sub('', line)
+''', 'C14.comments'),
+    ('blank-only-empty', 'cylc/flow/graph_parser.py',
+     '            if not modified_line or modified_line.isspace():',
+     '            if not modified_line:', 'C14.comments'),
+    ('append-raw-line', 'cylc/flow/graph_parser.py',
+     '''            modified_line = "".join(modified_line.split())
+            non_blank_lines.append(modified_line)''',
+     '''            modified_line = "".join(line.split())
+            non_blank_lines.append(modified_line)''', 'C14.comments'),
+    ('benign-blank-test-form', 'cylc/flow/graph_parser.py',
+     '            if not modified_line or modified_line.isspace():',
+     '            if modified_line.isspace() or not modified_line:', None),
 ]
